@@ -178,11 +178,18 @@ class Unit:
     pass
 
 
+def gen_headers(workdir):
+    rc, so, se, dt = run([sys.executable, os.path.join(VERIF, "tools", "gen_prefix.py")], timeout=60, mem=False)
+    if rc != 0:
+        raise Undecided("docs/format.md prefix table could not be parsed: " + se[-500:])
+    open(os.path.join(workdir, "fmt_prefix.h"), "w").write(so)
+
+
 def lower(unit, workdir):
     src = os.path.join(VERIF, "units", unit + ".cpp")
     out_c = os.path.join(workdir, unit + ".c")
     out_map = os.path.join(workdir, unit + ".map.json")
-    cmd = [os.path.join(VERIF, "tools", "nop2c"), src, "--out=" + out_c, "--map=" + out_map, "--"] + CXXFLAGS + ["-I" + CLANG_RES, "-Wno-everything"]
+    cmd = [os.path.join(VERIF, "tools", "nop2c"), src, "--out=" + out_c, "--map=" + out_map, "--"] + CXXFLAGS + ["-I" + workdir, "-I" + CLANG_RES, "-Wno-everything"]
     rc, so, se, dt = run(cmd, timeout=300, mem=False)
     if rc != 0:
         raise Undecided("lowering of unit %s failed (nop2c exit %d) — extraction break, not a violation:\n%s" % (unit, rc, (se or so)[-3000:]))
@@ -493,7 +500,9 @@ def native_build(unit, workdir, sanitize=True):
     exe = os.path.join(workdir, unit + ".native")
     if os.path.exists(exe):
         return exe
-    cmd = ["g++", "-O0", "-g", "-DVT_NATIVE", "-w"] + CXXFLAGS + \
+    if not os.path.exists(os.path.join(workdir, "fmt_prefix.h")):
+        gen_headers(workdir)
+    cmd = ["g++", "-O0", "-g", "-DVT_NATIVE", "-w"] + CXXFLAGS + ["-I" + workdir] + \
           (["-fsanitize=address,undefined", "-fno-sanitize-recover=undefined", "-fno-omit-frame-pointer"] if sanitize else []) + \
           [os.path.join(VERIF, "units", unit + ".cpp"), os.path.join(VERIF, "spec", "vt_native.cpp"), "-o", exe]
     rc, so, se, dt = run(cmd, timeout=600, mem=False)
@@ -555,6 +564,10 @@ def check(prop, tier, only_jobs=None, keep=False):
     jobs = []
     units = {}
     specs = {}
+    try:
+        gen_headers(workdir)
+    except Undecided as e:
+        undecided.append(str(e))
     for unit in all_units():
         try:
             sp = parse_spec(unit)
